@@ -30,7 +30,11 @@ for log in logs:
 for (pid, n), r in sorted(res.items()):
     src = '/tmp/wt-%s/out' % pid
     k = n
-    if n >= 13:
+    if n >= 15:
+        # ninth round (ten properties): /tmp/w9m-<id>/out/mutant{1,2} become <id>-15 and <id>-16
+        src = '/tmp/w9m-%s/out' % pid
+        k = n - 14
+    elif n >= 13:
         # seventh round (ten properties): /tmp/w7m-<id>/out/mutant{1,2} become <id>-13 and <id>-14
         # (rounds seven and eight cover ten properties each, both numbered 13 and 14)
         src = '/tmp/w7m-%s/out' % pid
